@@ -9,6 +9,10 @@ import DimodProofs.Anneal
 import DimodProofs.AnnealDelta
 import DimodProofs.AnnealColor
 import DimodProofs.AnnealSweep
+import DimodProofs.EnumComposite
+import DimodProofs.AnnealClass
+import DimodProofs.EnumFixedVars
+import DimodProofs.EnumExact
 
 /-! # C07 — samplers and composites report each row's true energy over the right variables
 
@@ -359,5 +363,182 @@ example : isingSA [(.str "a", -1), (.str "b", 0)] [(.str "a", .str "b", 2)] (som
 example : colorClasses [(.str "a", 0), (.str "b", 0), (.str "c", 0)] [(.str "a", .str "b", 1), (.str "b", .str "c", 1)]
     = [(0, [.str "a", .str "c"]), (1, [.str "b"])] := by decide +kernel
 example : randomRows false 2 2 (fun i => if i = 1 then 1 else 0) = [[0, 1], [0, 0]] := by decide +kernel
+
+/-! ## round 7: the remaining branches of the polynomial composites (`DimodModel/EnumComposite.lean`) -/
+
+/-- **PolyScaleComposite with `scalar=None`** (`BinaryPolynomial.normalize` with `bias_range` / `poly_range` as numbers or
+    pairs and `ignored_terms`, recovery of the scalar from the first non-zero non-ignored term, division or recomputation
+    of the energies — all as coded), for every child whose rows carry the energy of the polynomial it was given and
+    every polynomial (a dict: distinct keys): the call is refused (`ZeroDivisionError`) exactly when a range end is 0;
+    otherwise the child was given a polynomial with the same terms (keys), its rows come back with their columns
+    untouched, and every returned row carries the energy of the SUBMITTED polynomial. -/
+theorem polyscale_normalize (child : Poly → List Row) (p : Poly) (hk : (p.map (·.1)).Nodup)
+    (hchild : ∀ q, ∀ r ∈ child q, r.energy = polyEnergy r.val q)
+    (br : RangeArg) (pr : Option RangeArg) (ign : List (List Label)) :
+    (polyNormalizeSample child p br pr ign = none ↔
+      ((rangeEnds br pr).1.1 = 0 ∨ (rangeEnds br pr).1.2 = 0 ∨ (rangeEnds br pr).2.1 = 0 ∨ (rangeEnds br pr).2.2 = 0)) ∧
+    ∀ out, polyNormalizeSample child p br pr ign = some out →
+      (∃ scaled, scaled.map (·.1) = p.map (·.1) ∧ out.map (·.x) = (child scaled).map (·.x)) ∧
+      ∀ r ∈ out, r.energy = polyEnergy r.val p := by
+  refine ⟨(polyNormalizeSample_none_iff child p br pr ign).trans (polyNormalize_none_iff br pr ign p), fun out h => ⟨?_, ?_⟩⟩
+  · obtain ⟨scaled, h1, h2⟩ := polyNormalizeSample_columns child p br pr ign out h
+    exact ⟨scaled, polyNormalize_keys br pr ign p scaled h1, h2⟩
+  · exact polyNormalizeSample_energy child p hk hchild br pr ign out h
+
+/-- **PolyScaleComposite.sample_poly, both ways in** (`scalar` given and non-zero, or `None` → normalisation): every
+    returned row carries the energy of the submitted polynomial -/
+theorem polyscale_composite (child : Poly → List Row) (p : Poly) (hk : (p.map (·.1)).Nodup)
+    (hchild : ∀ q, ∀ r ∈ child q, r.energy = polyEnergy r.val q)
+    (scalar : Option Rat) (hs : scalar ≠ some 0) (br : RangeArg) (pr : Option RangeArg) (ign : List (List Label)) (out : List Row)
+    (h : polyScaleComposite child p scalar br pr ign = some out) : ∀ r ∈ out, r.energy = polyEnergy r.val p := by
+  cases scalar with
+  | none => exact polyNormalizeSample_energy child p hk hchild br pr ign out h
+  | some s =>
+    have hs0 : s ≠ 0 := fun e => hs (by rw [e])
+    simp only [polyScaleComposite, Option.some.injEq] at h
+    subst h
+    exact polyscale_energy child p s hs0 ign hchild
+
+/-- **PolyFixedVariableComposite.sample_poly, every branch as coded** (`fixed_variables=None`; a non-empty child answer →
+    `append_variables`; an empty answer with no free variable left → the one row `from_samples_bqm(fixed, poly)`; an empty
+    answer otherwise → no rows): every returned row carries the energy of the submitted polynomial and holds every fixed
+    value under its own label.  Terms are sets, the polynomial is a dict (one constant term), the child does not return a
+    fixed variable (it is not in the polynomial the child gets). -/
+theorem polyfixed_composite (child : Poly → List Row) (p : Poly) (fixed : Option (List (Label × Rat)))
+    (hp : ∀ t ∈ p, t.1.Nodup) (hc : OneConst p)
+    (hchild : ∀ q, ∀ r ∈ child q, r.energy = polyEnergy r.val q)
+    (hdisj : ∀ fx, fixed = some fx → ∀ q, ∀ r ∈ child q, ∀ f ∈ fx, r.x.find? (fun e => e.1 = f.1) = none) :
+    ∀ r ∈ polyFixedFull child p fixed,
+      r.energy = polyEnergy r.val p ∧
+      ∀ fx, fixed = some fx → ∀ l e, fx.find? (fun p => p.1 = l) = some e → r.val l = e.2 :=
+  polyFixedFull_spec child p fixed hp hc hchild hdisj
+
+/-- … and the number of rows of each branch: the child's rows, one for one; for an empty child answer one row iff
+    something is fixed and no variable is left, none otherwise -/
+theorem polyfixed_composite_rows (child : Poly → List Row) (p : Poly) (fx : List (Label × Rat)) :
+    (polyFixedFull child p none = child p) ∧
+    ((child (fixVariables true p fx)).length ≠ 0 →
+      (polyFixedFull child p (some fx)).length = (child (fixVariables true p fx)).length) ∧
+    ((child (fixVariables true p fx)).length = 0 →
+      (polyFixedFull child p (some fx)).length = if !fx.isEmpty && polyNoVars (fixVariables true p fx) then 1 else 0) :=
+  polyFixedFull_length child p fx
+
+/-- `TruncateComposite(child, n)` / `PolyTruncateComposite(child, n)`: `n < 1` is refused, otherwise `sample` is
+    `truncateComposite` (theorem `truncate_composite`) -/
+theorem truncate_init (n : Int) (b agg : Bool) (rows : List ORow) :
+    (n < 1 → truncateInit n b agg rows = .error ()) ∧
+    (1 ≤ n → truncateInit n b agg rows = .ok (truncateComposite n.toNat b agg rows)) :=
+  truncateInit_spec n b agg rows
+
+/-! ### non-vacuity of the round-7 statements -/
+
+example : ∀ q, ∀ r ∈ demoChild q, r.energy = polyEnergy r.val q := by
+  intro q r hr; simp only [demoChild, List.mem_singleton] at hr; subst hr; rfl
+example : (([([.str "a"], 4), ([.str "a", .str "b"], -2), ([], 3)] : Poly).map (·.1)).Nodup := by decide +kernel
+/-- normalisation to `bias_range = 1`: `inv_scalar = 4`, the child sees `a - b·a/2 + 3/4` (energy 9/4), the composite
+    reports 9 = 4 + 2 + 3 -/
+example : (polyNormalizeSample demoChild [([.str "a"], 4), ([.str "a", .str "b"], -2), ([], 3)] (.num 1) none []).map
+      (·.map fun r => (r.x, r.energy)) = some [([(.str "a", 1), (.str "b", -1)], 9)] := by decide +kernel
+/-- separate ranges: linear 4/2 = 2, higher-order |-2|/(1/2) = 4 → `inv_scalar = 4` -/
+example : polyNormalize (.num 2) (some (.pair (-1/2) 1)) [] [([.str "a"], 4), ([.str "a", .str "b"], -2)]
+    = some [([.str "a"], 1), ([.str "a", .str "b"], -1/2)] := by decide +kernel
+example : (polyNormalizeSample demoChild [([.str "a"], 4)] (.num 0) none []).isNone = true := by decide +kernel
+/-- everything fixed and a child without rows: the one row of the fixed values, with the polynomial's energy -/
+example : (polyFixedFull (fun _ => []) [([.str "a"], 4), ([.str "a", .str "b"], -2), ([], 3)] (some [(.str "a", 1), (.str "b", -1)])).map
+      (fun r => (r.x, r.energy)) = [([(.str "a", 1), (.str "b", -1)], 9)] := by decide +kernel
+example : (polyFixedFull (fun _ => []) [([.str "a"], 4), ([.str "a", .str "b"], -2)] (some [(.str "a", 1)])).length = 0 := by decide +kernel
+example : (match truncateInit 0 true false [] with | .error _ => true | .ok _ => false) = true := by decide +kernel
+
+/-! ## round 7: the simultaneous flips of one colour class add up -/
+
+/-- **one colour class, one energy equation** (closes the gap left after `greedy_coloring_total_and_proper` and
+    `sa_sweep_test_is_true_delta`): in any sweep, whatever the draws and β, when the colour class `c` is processed from
+    the state `sp` reached after the earlier classes, `ising_energy` after the class minus `ising_energy` before it is the
+    sum, over the variables flipped in that class, of exactly the differences `energy_diff_h[v] + energy_diff_J[v]` the
+    acceptance test compared with their draws; the flipped variables are distinct members of the class that passed the
+    test.  (`h` a dict, `J` as `to_ising()` delivers it, the spins a dict.) -/
+theorem sa_class_flips_add_up (h : List (Label × Rat)) (J : List (Label × Label × Rat)) (hh : (h.map (·.1)).Nodup)
+    (hJ : SimpleJ J) (pre post : List (Nat × List Label)) (c : Nat × List Label)
+    (hc : colorClasses h J = pre ++ c :: post) (beta : Option Rat) (draw : Label → Rat) (sp0 : List (Label × Rat))
+    (hsp0 : (sp0.map (·.1)).Nodup) :
+    let sp := pre.foldl (fun sp c => classStep J beta (diffH h sp0) draw sp c.2) sp0
+    let flipped := flippedIn J beta (diffH h sp0) draw sp c.2
+    isingE h J (dictGet (classStep J beta (diffH h sp0) draw sp c.2)) - isingE h J (dictGet sp) =
+        sumL (flipped.map fun v => diffH h sp0 v + diffJ J sp v) ∧
+      flipped.Nodup ∧
+      ∀ v ∈ flipped, v ∈ c.2 ∧ accept beta (draw v) (diffH h sp0 v + diffJ J sp v) = true :=
+  sweep_class_flips_add_up h J hh hJ pre post c hc beta draw sp0 hsp0
+
+/-- flipping ANY set of pairwise non-adjacent variables changes `ising_energy` by the sum of the one-flip differences -/
+theorem nonadjacent_flips_add_up (h : List (Label × Rat)) (J : List (Label × Label × Rat)) (hh : (h.map (·.1)).Nodup)
+    (hs : ∀ t ∈ J, t.1 ≠ t.2.1) (s : Label → Rat) (F : List Label) (hF : F.Nodup) (hind : ∀ u ∈ F, ∀ w ∈ F, w ∉ nbrs J u) :
+    isingE h J (flipSet s F) - isingE h J s = sumL (F.map fun v => isingE h J (flipSpin s v) - isingE h J s) :=
+  flipSet_energy h J hh hs s F hF hind
+
+/-- non-vacuity: the chain a—b—c, class `[a, c]` (see the colouring example above), all spins +1, both flips accepted:
+    the energy goes from 4 to −4 and each tested difference is −4 -/
+example : SimpleJ [(.str "a", .str "b", 1), (.str "b", .str "c", 1)] := by
+  unfold SimpleJ; constructor <;> decide +kernel
+example :
+    let h : List (Label × Rat) := [(.str "a", 1), (.str "b", 0), (.str "c", 1)]
+    let J : List (Label × Label × Rat) := [(.str "a", .str "b", 1), (.str "b", .str "c", 1)]
+    let sp0 : List (Label × Rat) := [(.str "a", 1), (.str "b", 1), (.str "c", 1)]
+    colorClasses h J = [] ++ (0, [.str "a", .str "c"]) :: [(1, [.str "b"])] ∧
+    flippedIn J (some 1) (diffH h sp0) (fun _ => -100) sp0 [.str "a", .str "c"] = [.str "a", .str "c"] ∧
+    isingE h J (dictGet (classStep J (some 1) (diffH h sp0) (fun _ => -100) sp0 [.str "a", .str "c"])) - isingE h J (dictGet sp0) = -8 ∧
+    diffH h sp0 (.str "a") + diffJ J sp0 (.str "a") = -4 := by decide +kernel
+
+/-! ## round 7: the all-fixed branch of PolyFixedVariableComposite is over the problem's variables -/
+
+/-- `PolyFixedVariableComposite`, child answer empty, `fixed_variables` non-empty, `not poly_copy.variables`: the answer is
+    exactly one row, its columns are the fixed variables with their values, its energy is the submitted polynomial's — and
+    every variable of the submitted polynomial is among those columns (no variable left ⇒ everything is fixed) -/
+theorem polyfixed_all_fixed_row (child : Poly → List Row) (p : Poly) (fx : List (Label × Rat))
+    (hempty : (child (fixVariables true p fx)).length = 0) (hfx : fx ≠ [])
+    (hno : polyNoVars (fixVariables true p fx) = true) :
+    (polyFixedFull child p (some fx)).map (fun r => (r.x, r.energy)) = [(fx, polyEnergy (Row.val ⟨fx, 0⟩) p)] ∧
+    ∀ t ∈ p, ∀ l ∈ t.1, l ∈ fx.map (·.1) := by
+  refine ⟨?_, noVars_all_fixed p fx hno⟩
+  have h1 : ¬ (child (fixVariables true p fx)).length ≠ 0 := by simp [hempty]
+  have h2 : (!fx.isEmpty && polyNoVars (fixVariables true p fx)) = true := by
+    cases fx with
+    | nil => exact absurd rfl hfx
+    | cons a t => simpa using hno
+  unfold polyFixedFull
+  simp only [if_neg h1, h2, if_true, List.map_cons, List.map_nil]
+  rfl
+
+example : polyNoVars (fixVariables true [([.str "a"], 4), ([.str "a", .str "b"], -2), ([], 3)] [(.str "a", 1), (.str "b", -1)]) = true := by
+  decide +kernel
+
+/-! ## round 7: ExactSolver.sample / ExactPolySolver.sample_poly as coded (`exactRows`) -/
+
+/-- **ExactPolySolver.sample_poly as coded** (`ExactSolver().sample(polynomial)`: empty answer without variables, otherwise the
+    `_graycode` rows — `2·x − 1` for SPIN — under `list(polynomial.variables)` with `from_samples_bqm` energies): `2^n` rows, no
+    sample twice; every row over exactly the variables in that order, every value in the vartype's domain, the reported energy is
+    the submitted polynomial's energy of the row; and every assignment of the variables is returned -/
+theorem exact_poly_solver_rows (spin : Bool) (vars : List Label) (p : Poly) :
+    (vars = [] → exactPolySolver spin vars p = []) ∧
+    (vars ≠ [] → (exactPolySolver spin vars p).length = 2 ^ vars.length) ∧
+    ((exactPolySolver spin vars p).map (·.x)).Nodup ∧
+    (∀ r ∈ exactPolySolver spin vars p,
+      r.x.map (·.1) = vars ∧ (∀ q ∈ r.x, InVartype spin q.2) ∧ r.energy = polyEnergy r.val p) ∧
+    (vars ≠ [] → ∀ vals : List Rat, vals.length = vars.length → (∀ v ∈ vals, InVartype spin v) →
+      ∃ r ∈ exactPolySolver spin vars p, r.x = vars.zip vals) :=
+  exactRows_spec spin vars (fun x => polyEnergy x p)
+
+/-- **ExactSolver.sample as coded**: the same for a binary quadratic model -/
+theorem exact_solver_rows (vars : List Label) (m : Bqm) :
+    (vars = [] → exactBqmSolver vars m = []) ∧
+    (vars ≠ [] → (exactBqmSolver vars m).length = 2 ^ vars.length) ∧
+    ((exactBqmSolver vars m).map (·.x)).Nodup ∧
+    (∀ r ∈ exactBqmSolver vars m,
+      r.x.map (·.1) = vars ∧ (∀ q ∈ r.x, InVartype m.spin q.2) ∧ r.energy = m.energy r.val) ∧
+    (vars ≠ [] → ∀ vals : List Rat, vals.length = vars.length → (∀ v ∈ vals, InVartype m.spin v) →
+      ∃ r ∈ exactBqmSolver vars m, r.x = vars.zip vals) :=
+  exactRows_spec m.spin vars m.energy
+
+example : (exactPolySolver true [.str "a", .str "b"] [([.str "a"], 4), ([.str "a", .str "b"], -2), ([], 3)]).map (fun r => (r.x.map (·.2), r.energy))
+    = [([-1, -1], -3), ([1, -1], 9), ([1, 1], 5), ([-1, 1], 1)] := by decide +kernel
 
 end C07
